@@ -16,6 +16,8 @@ original nodes are kept, so reports still point into the source.
 from __future__ import annotations
 
 import ast
+
+from .astclone import clone as _clone
 import copy
 
 
@@ -173,7 +175,7 @@ class _Canon:
                 continue
             for c, k in splats:
                 i = c.keywords.index(k)
-                c.keywords[i:i + 1] = [ast.keyword(arg=a, value=_copy.deepcopy(x)) for a, x in items]
+                c.keywords[i:i + 1] = [ast.keyword(arg=a, value=_clone(x)) for a, x in items]
             # drop the definition
             for parent in ast.walk(fn):
                 for fld in ("body", "orelse", "finalbody"):
@@ -207,7 +209,7 @@ class _Canon:
             class _S(ast.NodeTransformer):
                 def visit_Name(self_, x):
                     if x.id == name and isinstance(x.ctx, ast.Load):
-                        return ast.copy_location(_copy.deepcopy(n.value), x)
+                        return ast.copy_location(_clone(n.value), x)
                     return x
             for parent in ast.walk(fn):
                 for fld in ("body", "orelse", "finalbody"):
@@ -250,7 +252,7 @@ class _Canon:
                     return c
             for nm in names:
                 for b in st.body:
-                    nb = _R(nm).visit(_copy.deepcopy(b))
+                    nb = _R(nm).visit(_clone(b))
                     if isinstance(nb, ast.Expr) and isinstance(nb.value, ast.Call) and isinstance(nb.value.func, ast.Name) and nb.value.func.id == "setattr" and len(nb.value.args) == 3 and isinstance(nb.value.args[1], ast.Name) and nb.value.args[1].id == v:
                         c = nb.value
                         nb = ast.copy_location(ast.Assign(targets=[ast.Attribute(value=c.args[0], attr=nm, ctx=ast.Store())], value=c.args[2]), b)
@@ -446,7 +448,7 @@ class _CallOfChoice(ast.NodeTransformer):
             import copy as _copy
 
             a = ast.copy_location(ast.Call(func=node.func.body, args=node.args, keywords=node.keywords), node)
-            b = ast.copy_location(ast.Call(func=node.func.orelse, args=[_copy.deepcopy(x) for x in node.args], keywords=[_copy.deepcopy(k) for k in node.keywords]), node)
+            b = ast.copy_location(ast.Call(func=node.func.orelse, args=[_clone(x) for x in node.args], keywords=[_clone(k) for k in node.keywords]), node)
             return ast.copy_location(ast.IfExp(test=node.func.test, body=a, orelse=b), node)
         return node
 
